@@ -32,6 +32,7 @@ def check(ctx: Ctx) -> None:
     r3(ctx)
     r4(ctx)
     r5(ctx)
+    r10_log_order(ctx)
     # collections must leave every retained snapshot readable: the collector's reachability / delete-guard rules are shared
     from .c05 import r1 as c05_r1, r1_noskip, r3 as c05_r3
     c05_r1(ctx, "C09.R6")
@@ -332,6 +333,105 @@ def r4(ctx: Ctx) -> None:
         via = any(t.name == "_most_recent_snapshot_id" for c in dg.calls() if c.stmt is a.ast for t in ctx.eff.callees(d, c))
         ctx.ob("C09.R4", d, "current snapshot reassigned only when the deleted one was current", a, bool(guards) and via,
                "delete_snapshot repoints to _most_recent_snapshot_id() under `current_snapshot_id == snapshot_id`")
+
+
+ORDER_BREAKERS = {"sorted", "reversed", "set", "frozenset", "heapq.nlargest", "heapq.nsmallest", "heapq.merge", "random.sample",
+                  "random.shuffle", "dict.fromkeys"}
+
+
+def r10_log_order(ctx: Ctx, rid: str = "C09.R10") -> None:
+    ctx.rule(rid, "snapshot_log stays in commit order everywhere: no producer of a snapshot_log value (assignment, constructor "
+             "keyword, serialised dict entry, in-place mutation) sorts, reverses, de-duplicates through a set or inserts in the "
+             "middle - `_most_recent_snapshot_id` reads recency off the list order", 6)
+
+    def disturbs(f: FunctionInfo, v: Optional[ast.AST], at: int, depth: int = 0) -> List[str]:
+        """order-disturbing constructs on the SEQUENCE SPINE of v: the iterable a comprehension walks, the operands of + and
+        slices, the argument of list()/tuple()/copy()/deepcopy(), the definitions of a variable - not filter conditions or
+        element expressions (they cannot change the relative order)."""
+        if v is None or depth > 10:
+            return []
+        if isinstance(v, (ast.ListComp, ast.GeneratorExp)):
+            return disturbs(f, v.generators[0].iter, at, depth + 1)
+        if isinstance(v, (ast.SetComp, ast.Set)):
+            return [norm_text(v)[:60]]
+        if isinstance(v, ast.IfExp):
+            return disturbs(f, v.body, at, depth + 1) + disturbs(f, v.orelse, at, depth + 1)
+        if isinstance(v, ast.BinOp):
+            return disturbs(f, v.left, at, depth + 1) + disturbs(f, v.right, at, depth + 1)
+        if isinstance(v, ast.Starred):
+            return disturbs(f, v.value, at, depth + 1)
+        if isinstance(v, (ast.List, ast.Tuple)):
+            return [b for e in v.elts if isinstance(e, ast.Starred) for b in disturbs(f, e.value, at, depth + 1)]
+        if isinstance(v, ast.Subscript) and isinstance(v.slice, ast.Slice):
+            if isinstance(v.slice.step, ast.UnaryOp):
+                return [norm_text(v)[:60]]
+            return disturbs(f, v.value, at, depth + 1)
+        if isinstance(v, ast.Call):
+            d = dotted(v.func) or ""
+            if d in ORDER_BREAKERS:
+                return [norm_text(v)[:60]]
+            if d in ("list", "tuple", "copy", "deepcopy", "copy.copy", "copy.deepcopy", "iter") and v.args:
+                return disturbs(f, v.args[0], at, depth + 1)
+            g_ = ctx.cfg(f)
+            if id(v) in g_.inline_returns:
+                return [b for rexpr, rnode in g_.inline_returns[id(v)] for b in disturbs(f, rexpr, rnode, depth + 1)]
+            return []
+        if isinstance(v, ast.Name):
+            g_ = ctx.cfg(f)
+            out: List[str] = []
+            for dn in ctx.rd(f).reaching(at, v.id):
+                node = g_.nodes[dn]
+                if dn == g_.entry:
+                    continue
+                if isinstance(node.ast, ast.Assign) and len(node.ast.targets) == 1 and isinstance(node.ast.targets[0], ast.Name):
+                    out += disturbs(f, node.ast.value, dn, depth + 1)
+                elif isinstance(node.ast, ast.AugAssign):
+                    out += disturbs(f, node.ast.value, dn, depth + 1)
+            # in-place re-ordering of the local list before it is stored
+            for c in g_.calls():
+                if isinstance(c.ast, ast.Call) and isinstance(c.ast.func, ast.Attribute) and isinstance(c.ast.func.value, ast.Name) \
+                        and c.ast.func.value.id == v.id and c.ast.func.attr in ("sort", "reverse", "insert"):
+                    out.append(norm_text(c.ast)[:60])
+            return out
+        return []
+
+    for f in sorted(ctx.prog.functions.values(), key=lambda x: x.qname):
+        if isinstance(f.node, ast.Lambda) or f.parent is not None and ctx.prog.is_transparent(f):
+            continue
+        g = ctx.cfg(f)
+        for n in g.nodes:
+            if n.ast is None or n.id not in g.reachable() or n.kind not in ("stmt", "call", "return"):
+                continue
+            sites: List[Tuple[str, Optional[ast.AST]]] = []
+            if n.kind == "stmt" and isinstance(n.ast, (ast.Assign, ast.AugAssign)):
+                tgs = n.ast.targets if isinstance(n.ast, ast.Assign) else [n.ast.target]
+                for t in tgs:
+                    base = t.value if isinstance(t, ast.Subscript) else t
+                    if isinstance(base, ast.Attribute) and base.attr == "snapshot_log":
+                        sites.append(("assigned", n.ast.value))
+            if n.kind in ("stmt", "return"):
+                for x in ast.walk(n.ast):
+                    if isinstance(x, ast.Dict):
+                        for k, v in zip(x.keys, x.values):
+                            if isinstance(k, ast.Constant) and k.value == "snapshot_log":
+                                sites.append(("serialised", v))
+            if n.kind == "call" and isinstance(n.ast, ast.Call):
+                for k in n.ast.keywords:
+                    if k.arg == "snapshot_log":
+                        sites.append(("constructor keyword", k.value))
+                fn_ = n.ast.func
+                if isinstance(fn_, ast.Attribute) and isinstance(fn_.value, ast.Attribute) and fn_.value.attr == "snapshot_log":
+                    ok = fn_.attr in ("append", "extend", "copy", "clear", "remove", "pop", "index", "count")
+                    ctx.ob(rid, f, "in-place operation on snapshot_log keeps commit order", n, ok,
+                           f"`.{fn_.attr}()`: " + ("appends / removes keep the relative order of the entries" if ok else
+                                                  "re-orders the log: the newest-first walk of _most_recent_snapshot_id no longer follows commit recency"),
+                           text=fn_.attr)
+            for role, v in sites:
+                bad = sorted(set(disturbs(f, v, n.id)))
+                ctx.ob(rid, f, f"snapshot_log {role} in commit order", n, not bad,
+                       ("value built by filtering / copying / appending (order-preserving)" if not bad else
+                        f"order-disturbing construct(s) {bad}: deleting the current snapshot would repoint to a snapshot that is not "
+                        "the most recently committed one (timestamps are not commit order under clock steps)"), text=role)
 
 
 def r5(ctx: Ctx) -> None:
